@@ -236,3 +236,174 @@ def find_pat(nodes, src: str, b: Optional[Dict[str, str]] = None) -> List[Tuple[
 
 def has_pat(nodes, src: str, b: Optional[Dict[str, str]] = None) -> bool:
     return bool(find_pat(nodes, src, b))
+
+
+# ------------------------------------------------------------------------------------------------
+# Flow-insensitive data + control dependence inside one function: which attribute reads can influence a value?
+# (spelling-independent: a conditional expression, an if statement around the assignment and a temporary all give
+# the same answer)
+def influences(f: FuncInfo, e: ast.AST, _seen: Optional[set] = None) -> List[ast.Attribute]:
+    """Attribute-read nodes that the value of expression/statement `e` depends on: those inside it, those in the tests
+    of the if/while statements (and conditional expressions) enclosing it, and -- through local names -- those that the
+    assignments to these names depend on."""
+    from .model import ancestors
+    seen = _seen if _seen is not None else set()
+    out: List[ast.Attribute] = []
+    if id(e) in seen:
+        return out
+    seen.add(id(e))
+    names = set()
+    for x in ast.walk(e):
+        if isinstance(x, ast.Attribute) and isinstance(x.ctx, ast.Load):
+            out.append(x)
+        elif isinstance(x, ast.Name) and isinstance(x.ctx, ast.Load):
+            names.add(x.id)
+    prev = e
+    for a in ancestors(e):
+        if isinstance(a, (ast.FunctionDef, ast.AsyncFunctionDef, ast.Lambda)):
+            break
+        if isinstance(a, (ast.If, ast.While)) and prev is not a.test:
+            out += influences(f, a.test, seen)
+        if isinstance(a, ast.IfExp) and prev is not a.test:
+            out += influences(f, a.test, seen)
+        prev = a
+    params = set(f.positional_names())
+    for n in f.body_nodes():
+        tg = []
+        if isinstance(n, ast.Assign):
+            tg = [(t, n) for t in n.targets]
+        elif isinstance(n, (ast.AnnAssign, ast.AugAssign)) and getattr(n, 'value', None) is not None:
+            tg = [(n.target, n)]
+        for t, st in tg:
+            for x in ast.walk(t):
+                if isinstance(x, ast.Name) and x.id in names and x.id not in params and isinstance(x.ctx, ast.Store):
+                    out += influences(f, st.value, seen)
+    return out
+
+
+# ------------------------------------------------------------------------------------------------
+# "target = A if C else B" in whichever spelling: conditional expression, or an if statement whose two arms each
+# assign the same target / each return.
+def cond_values(nodes) -> List[Tuple[str, ast.AST, ast.AST, ast.AST, ast.AST]]:
+    """(target text or 'return', test, value-if-true, value-if-false, node) for every two-armed conditional value."""
+    out = []
+    for n in nodes:
+        if isinstance(n, ast.If) and len(n.body) == 1 and len(n.orelse) == 1:
+            a, b = n.body[0], n.orelse[0]
+            if isinstance(a, ast.Assign) and isinstance(b, ast.Assign) and len(a.targets) == 1 and len(b.targets) == 1 \
+                    and norm(a.targets[0]) == norm(b.targets[0]):
+                out.append((norm(a.targets[0]), n.test, a.value, b.value, n))
+            elif isinstance(a, ast.Return) and isinstance(b, ast.Return) and a.value is not None and b.value is not None:
+                out.append(('return', n.test, a.value, b.value, n))
+        elif isinstance(n, ast.IfExp):
+            from .model import parent as _parent
+            p = _parent(n)
+            tgt = norm(p.targets[0]) if isinstance(p, ast.Assign) and len(p.targets) == 1 and p.value is n else \
+                ('return' if isinstance(p, ast.Return) else '<expr>')
+            out.append((tgt, n.test, n.body, n.orelse, n))
+    return out
+
+
+def match_cond(nodes, test_src: str, true_src: str, false_src: str, b: Optional[Dict[str, str]] = None,
+               target_src: Optional[str] = None) -> List[Tuple[ast.AST, Dict[str, str]]]:
+    """Two-armed conditional values matching `true_src if test_src else false_src` (patterns with wildcards); the
+    negated orientation (`false_src if not test_src else true_src`) matches too."""
+    out = []
+    pt, pa, pb = pat(test_src), pat(true_src), pat(false_src)
+    for tgt, test, va, vb, node in cond_values(nodes):
+        for t_, a_, b_ in ((test, va, vb), (_negated(test), vb, va)):
+            if t_ is None:
+                continue
+            r = unify(pt, t_, b)
+            if r is None:
+                continue
+            r = unify(pa, a_, r)
+            if r is None:
+                continue
+            r = unify(pb, b_, r)
+            if r is None:
+                continue
+            if target_src is not None:
+                r2 = unify(pat(target_src), ast.parse(tgt).body[0].value, r) if tgt not in ('return', '<expr>') else None
+                if r2 is None:
+                    continue
+                r = r2
+            out.append((node, r))
+            break
+    return out
+
+
+def _negated(test: ast.AST) -> Optional[ast.AST]:
+    if isinstance(test, ast.UnaryOp) and isinstance(test.op, ast.Not):
+        return test.operand
+    neg = {ast.Eq: ast.NotEq, ast.NotEq: ast.Eq, ast.Is: ast.IsNot, ast.IsNot: ast.Is, ast.In: ast.NotIn, ast.NotIn: ast.In}
+    if isinstance(test, ast.Compare) and len(test.ops) == 1 and type(test.ops[0]) in neg:
+        return ast.Compare(left=test.left, ops=[neg[type(test.ops[0])]()], comparators=test.comparators)
+    return None
+
+
+# ------------------------------------------------------------------------------------------------
+# Propositional view of a test: atoms are the maximal sub-expressions that are not not/and/or; negative comparison
+# operators are the negation of the positive atom.  Two tests are equivalent when their truth tables agree -- the
+# comparison is blind to De Morgan rewrites, double negation, operand order of and/or and != versus not ==.
+# (Python's and/or return operands, not booleans; the equivalence is about truthiness, which is what an `if` sees.)
+_POS = {ast.NotEq: ast.Eq, ast.IsNot: ast.Is, ast.NotIn: ast.In}
+
+
+def _prop(e: ast.AST, atoms: Dict[str, int]):
+    if isinstance(e, ast.UnaryOp) and isinstance(e.op, ast.Not):
+        return ('not', _prop(e.operand, atoms))
+    if isinstance(e, ast.BoolOp):
+        return ('and' if isinstance(e.op, ast.And) else 'or', [_prop(v, atoms) for v in e.values])
+    if isinstance(e, ast.Compare) and len(e.ops) == 1 and type(e.ops[0]) in _POS:
+        pos = ast.Compare(left=e.left, ops=[_POS[type(e.ops[0])]()], comparators=e.comparators)
+        return ('not', _prop(pos, atoms))
+    if isinstance(e, ast.Compare) and len(e.ops) == 1 and isinstance(e.ops[0], (ast.Eq, ast.Is)):
+        a, b = sorted([norm(e.left), norm(e.comparators[0])])
+        key = '%s %s %s' % (a, '==' if isinstance(e.ops[0], ast.Eq) else 'is', b)
+    elif isinstance(e, ast.Constant) and isinstance(e.value, bool):
+        return ('const', e.value)
+    else:
+        key = norm(e)
+    if key not in atoms:
+        atoms[key] = len(atoms)
+    return ('atom', atoms[key])
+
+
+def _eval(p, env) -> bool:
+    k = p[0]
+    if k == 'atom':
+        return env[p[1]]
+    if k == 'const':
+        return p[1]
+    if k == 'not':
+        return not _eval(p[1], env)
+    if k == 'and':
+        return all(_eval(x, env) for x in p[1])
+    return any(_eval(x, env) for x in p[1])
+
+
+def bool_relation(a: ast.AST, b: ast.AST) -> Optional[str]:
+    """'same' if the two tests are truth-equivalent, 'negated' if one is the negation of the other, else None
+    (None also when they have more than 10 atoms together)."""
+    import itertools
+    atoms: Dict[str, int] = {}
+    pa, pb = _prop(a, atoms), _prop(b, atoms)
+    n = len(atoms)
+    if n > 10:
+        return None
+    same = neg = True
+    for vals in itertools.product([False, True], repeat=n):
+        x, y = _eval(pa, vals), _eval(pb, vals)
+        if x != y:
+            same = False
+        if x == y:
+            neg = False
+        if not same and not neg:
+            return None
+    return 'same' if same else ('negated' if neg else None)
+
+
+def cond_value_of(nodes, target: Optional[str] = None):
+    """Like cond_values, restricted to one target text ('return' for returns)."""
+    return [c for c in cond_values(nodes) if target is None or c[0] == target]
